@@ -7,11 +7,25 @@ from ..core import (AnalysisError, path, unparse, norm_test, facts_at, walk_own,
 from ..events import name_defs, single_def
 from ..report import Ob
 
-CROSS_SENTENCE = {
-    'treeinput.brackets': {'cnt': 'running sentence id'},
-    'treeinput.export': {'tree_cnt': 'running sentence id', 'last_id': 'id of the #BOS line, set again at every #BOS'},
-    'treeinput.tigerxml': {'tree_cnt': 'running sentence id'},
-}
+def _sid_sources(f):
+    """Names whose value flows into the sentence id (`X.data['sid'] = ...`): they carry over between
+    sentences by design (running number / id of the #BOS line) and are checked by R-SIBLING/SID."""
+    out = set()
+    todo = []
+    for n in walk_own(f.node):
+        if isinstance(n, ast.Assign) and unparse(n.targets[0]).endswith(".data['sid']"):
+            todo.append(n.value)
+    seen = set()
+    while todo:
+        e = todo.pop()
+        for x in ast.walk(e):
+            if isinstance(x, ast.Name) and x.id not in seen and x.id in f.locals and x.id != f.kwarg:
+                seen.add(x.id)
+                out.add(x.id)
+                for (_, v) in name_defs(f, x.id):
+                    if isinstance(v, ast.IfExp):
+                        todo.append(v)
+    return out
 
 
 def _writes_name(cfg, n, name):
@@ -54,7 +68,8 @@ def r_reader_state(prog, tier):
         if not y.loops:
             raise AnalysisError('%s: yield outside a loop' % f.fq)
         main = y.loops[0]
-        cross = CROSS_SENTENCE.get(f.fq, {})
+        cross = dict((nm2, 'feeds the sentence id (running number, or id read at the start of the sentence)')
+                     for nm2 in _sid_sources(f))
         cand = {}
         for name in sorted(f.locals):
             if name in f.params or name == f.kwarg:
@@ -169,9 +184,51 @@ class ReaderModel(object):
                  and len(n.ast.target.elts) == 2 and not n.loops]
         if len(loops) != 1:
             raise AnalysisError('brackets: token loop `for lextoken, lexclass in lexer` not found')
-        self.loop = loops[0].ast
-        self.tokvar, self.clsvar = [unparse(x) for x in self.loop.target.elts]
+        loop_ast = loops[0].ast
         self.kw = f.kwarg
+        # identify the control variables by their role, whatever they are called
+        roles = {}
+        for n in ast.walk(loop_ast):
+            if isinstance(n, ast.Call) and isinstance(n.func, ast.Attribute) and n.func.attr == 'append' \
+                    and isinstance(n.func.value, ast.Name) and n.args and prog.callee(n.args[0], f) == ('trees', 'Tree.__init__'):
+                roles.setdefault('queue', n.func.value.id)
+        q = roles.get('queue')
+        for n in ast.walk(loop_ast):
+            if isinstance(n, ast.Assign) and isinstance(n.value, ast.Name) and q:
+                t = unparse(n.targets[0])
+                if t == "%s[-1].data['num']" % q:
+                    roles.setdefault('term_cnt', n.value.id)
+                if t == "%s[0].data['sid']" % q:
+                    roles.setdefault('cnt', n.value.id)
+            if isinstance(n, ast.AugAssign) and isinstance(n.target, ast.Name) and isinstance(n.op, ast.Sub) \
+                    and unparse(n.value) == '1':
+                roles.setdefault('level', n.target.id)
+            if isinstance(n, ast.Assign) and isinstance(n.targets[0], ast.Name) and isinstance(n.value, ast.Constant) \
+                    and isinstance(n.value.value, int) and not isinstance(n.value.value, bool) \
+                    and n.targets[0].id not in roles.values():
+                cand = n.targets[0].id
+                # the state variable is the one tested against lists of integers
+                for m in ast.walk(loop_ast):
+                    if isinstance(m, ast.Compare) and isinstance(m.left, ast.Name) and m.left.id == cand \
+                            and isinstance(m.ops[0], ast.In) and isinstance(m.comparators[0], ast.List):
+                        roles.setdefault('state', cand)
+        missing = [r for r in ('queue', 'state', 'level', 'term_cnt', 'cnt') if r not in roles]
+        if missing:
+            raise AnalysisError('brackets: control variables %s not identified' % missing)
+        roles['lextoken'], roles['lexclass'] = [unparse(x) for x in loop_ast.target.elts]
+        self.roles = roles
+        inv = dict((v, k) for k, v in roles.items())
+
+        class _Canon(ast.NodeTransformer):
+            def visit_Name(self, n):
+                if n.id in inv:
+                    return ast.copy_location(ast.Name(id=inv[n.id], ctx=n.ctx), n)
+                return n
+        import copy
+        self.loop = _Canon().visit(copy.deepcopy(loop_ast))
+        self.orig_loop = loop_ast
+        self.tokvar, self.clsvar = 'lextoken', 'lexclass'
+        self._canon = _Canon
         # control variables: the ones assigned before the loop and written in it
         self.ctrl = {}
         for n in cfg.eval_nodes():
@@ -183,15 +240,17 @@ class ReaderModel(object):
                     self.ctrl[n.ast.targets[0].id] = 'list'
         need = {'state': 0, 'level': 0, 'term_cnt': 1, 'queue': 'list'}
         for k, v in need.items():
-            if self.ctrl.get(k) != v:
-                raise AnalysisError('brackets: control variable `%s` is not initialised to %r before the loop' % (k, v))
-        self.after = self._after_loop()
+            if self.ctrl.get(roles[k]) != v:
+                raise AnalysisError('brackets: control variable `%s` (%s) is not initialised to %r before the loop'
+                                    % (roles[k], k, v))
+        import copy
+        self.after = [self._canon().visit(copy.deepcopy(st)) for st in self._after_loop()]
 
     def _after_loop(self):
         """statements after the token loop inside the `with` (end-of-input handling)"""
         for n in walk_own(self.f.node):
-            if isinstance(n, ast.With) and self.loop in n.body:
-                i = n.body.index(self.loop)
+            if isinstance(n, ast.With) and self.orig_loop in n.body:
+                i = n.body.index(self.orig_loop)
                 return n.body[i + 1:]
         return []
 
@@ -682,9 +741,18 @@ def _lexer_rules(prog):
             branches[br].append(('WRITE', unparse(st.value.func.value), unparse(st.value.args[0])))
         elif isinstance(st, ast.Assign) and isinstance(st.value, ast.Call) and unparse(st.value.func) == 'StringIO':
             branches[br].append(('FRESH', unparse(st.targets[0])))
-    tb = [k for k, v in vals.items() if 'token' in k][0] if any('token' in k for k in vals) else None
-    wb = [k for k in vals if k != tb][0] if tb else None
-    if not tb or not wb:
+    # which buffer holds tokens: the one whose value is yielded with the literal class 'TOKEN'
+    tb = wb = None
+    for n in walk_own(f.node):
+        if isinstance(n, ast.Yield) and isinstance(n.value, ast.Tuple) and len(n.value.elts) == 2 \
+                and isinstance(n.value.elts[0], ast.Name) and const_str(n.value.elts[1]) in ('TOKEN', 'WS'):
+            for bk, bv in vals.items():
+                if bv == n.value.elts[0].id:
+                    if const_str(n.value.elts[1]) == 'TOKEN':
+                        tb = bk
+                    else:
+                        wb = bk
+    if not tb or not wb or tb == wb:
         raise AnalysisError('bracket_lexer: buffers not identified')
     tv, wv = vals[tb], vals[wb]
     flush_t = [('YIELD', "(%s, 'TOKEN')" % tv, 'len(%s)' % tv), ('FRESH', tb)]
@@ -754,13 +822,20 @@ def _disco_rules(prog):
                   construct='a4', line=r.node.lineno))
     # the reader's map from position to word counts every non-blank lexer token of the sentence part
     cfg = r.cfg
+    tokloops = [n for n in cfg.eval_nodes() if n.kind == 'iter' and isinstance(n.ast.target, ast.Tuple)
+                and len(n.ast.target.elts) == 2 and not n.loops]
+    tokv = unparse(tokloops[0].ast.target.elts[0]) if tokloops else None
     stores = [n for n in cfg.eval_nodes() if n.kind == 'stmt' and isinstance(n.ast, ast.Assign)
-              and unparse(n.ast.targets[0]) == 'tokenmap[position]']
+              and isinstance(n.ast.targets[0], ast.Subscript) and isinstance(n.ast.targets[0].value, ast.Name)
+              and isinstance(n.ast.targets[0].slice, ast.Name) and unparse(n.ast.value) == tokv and len(n.loops) >= 2]
+    if not stores:
+        raise AnalysisError('discobracket reader: position -> word map not found')
     for s in stores:
+        pv = unparse(s.ast.targets[0].slice)
         facts = [x[0] for x in facts_at(cfg, s.id) if cfg.nodes[x[1]].loops == s.loops
                  and isinstance(cfg.nodes[x[1]].owner, ast.If)]
-        okm = facts in ([('cmp', 'lextoken', '!=', "' '")], [('cmp', "' '", '!=', 'lextoken')])
-        inc = any(n.kind == 'stmt' and unparse(n.ast) == 'position += 1' and n.id in cfg.succ[s.id]
+        okm = facts in ([('cmp', tokv, '!=', "' '")], [('cmp', "' '", '!=', tokv)])
+        inc = any(n.kind == 'stmt' and unparse(n.ast) == '%s += 1' % pv and n.id in cfg.succ[s.id]
                   and cfg.dominates(s.id, n.id) for n in cfg.eval_nodes())
         obs.append(Ob('R-AUTOMATON/A4', 'treeinput.brackets', 'every token of the sentence part (whatever its lexer class) '
                       'takes the next position', okm and inc, 'stored unless it is the separating blank; position += 1 with '
